@@ -215,6 +215,7 @@ def real_groups(tier, seed):
                 calls.append("run_rwide<%s,%d,%d,%d>(%du);" % (t, (ti + k + seed) % 2, M, max(N, 2), seed * 23 + k))
             for n in (rng.sample([2, 3, 4, 5, 8], 1) if quick else [2, 3, 4, 5, 8, 9]):
                 calls.append("run_rlin<%s,%d>(%du);" % (t, n, seed * 29 + n))
+                calls.append("run_rconst<%s,%d>(%du);" % (t, n, seed * 41 + n))
             k0 = (ti * 3 + seed) % len(UNIT_SHAPES)
             for sh in ([UNIT_SHAPES[(k0 + j * 5) % len(UNIT_SHAPES)] for j in range(3)] if quick else UNIT_SHAPES):
                 calls.append("run_rshape<%s,%s>(%du);" % (t, ",".join(map(str, sh)), seed * 37 + len(sh)))
